@@ -31,6 +31,8 @@ type Case struct {
 	GPTd  bool         `json:"gptd,omitempty"`  // getpath: GP walks through a typedef'd type
 	Doc   string       `json:"doc,omitempty"`   // unmarshal: hex JSON document
 	Alt   []string     `json:"alt,omitempty"`   // order: hex, the same abstract paths written in another order / grouping
+	Docs  []string     `json:"docs,omitempty"`  // cache: hex JSON documents
+	Hist  [][2]int     `json:"hist,omitempty"`  // cache: (receive buffer, document) per step of the history
 }
 
 func (c *Case) paths() []string {
@@ -51,6 +53,14 @@ func (c *Case) human() map[string]interface{} {
 	}
 	if len(c.Steps) > 0 {
 		m["steps"] = c.Steps
+	}
+	if len(c.Docs) > 0 {
+		var ds []string
+		for _, d := range c.Docs {
+			ds = append(ds, vl.UnHex(d))
+		}
+		m["docs"] = ds
+		m["history(buffer,doc)"] = c.Hist
 	}
 	return m
 }
@@ -84,6 +94,9 @@ func check(c *Case) []fail {
 			fs = append(fs, fail{"panic:" + pk, "the library panicked in " + where, "an error or a result", "panic at site " + pk})
 		}
 	}
+	if c.Op == "cache" {
+		return checkCache(c)
+	}
 	m, out, pk := w.newMask(root, c.Black, c.paths())
 	pan("NewFieldMask", pk)
 	var aps [][]string
@@ -93,8 +106,9 @@ func check(c *Case) []fail {
 		selOK = noStarConflict(aps)
 	}
 	if c.Op == "new" {
-		if selOK && out == "err" {
-			fs = append(fs, fail{"new:valid-paths-rejected", "grammar-generated paths without '*' conflict were rejected", "a mask", "error"})
+		// (a panic on a negative field id is the separate finding panic:head-negative-index)
+		if selOK && out != "ok" && pk != "head-negative-index" {
+			fs = append(fs, fail{"new:valid-paths-rejected", "grammar-generated paths without '*' conflict were rejected", "a mask", out})
 		}
 		return fs
 	}
@@ -259,6 +273,60 @@ func checkJSON(m *fieldmask.FieldMask, steps []string, aps [][]string, selOK boo
 	return fs
 }
 
+// checkCache: a history through the cached fieldmask.Unmarshal API with REUSED receive buffers (every document is
+// padded with trailing blanks to one length, copied into one of a few long-lived buffers, and decoded from there).
+// Each answer must be the mask UnmarshalJSON builds from the same bytes.
+func checkCache(c *Case) []fail {
+	var fs []fail
+	n := 0
+	docs := make([][]byte, len(c.Docs))
+	for i, d := range c.Docs {
+		docs[i] = []byte(vl.UnHex(d))
+		if len(docs[i]) > n {
+			n = len(docs[i])
+		}
+	}
+	bufs := map[int][]byte{}
+	for step, h := range c.Hist {
+		b, ok := bufs[h[0]]
+		if !ok {
+			b = make([]byte, n)
+			bufs[h[0]] = b
+		}
+		for i := range b {
+			b[i] = ' '
+		}
+		copy(b, docs[h[1]])
+		want, wo, _ := unmarshalDoc(append([]byte{}, b...))
+		var got *fieldmask.FieldMask
+		o, pk := guard(func() string {
+			fm, err := fieldmask.Unmarshal(b)
+			if err != nil {
+				return "err"
+			}
+			got = fm
+			return "ok"
+		})
+		if pk != "" {
+			fs = append(fs, fail{"panic:" + pk, "the library panicked in fieldmask.Unmarshal", "a result", "panic"})
+			break
+		}
+		if o != wo {
+			fs = append(fs, fail{"json:cached-unmarshal-differs", fmt.Sprintf("step %d of a buffer-reuse history: fieldmask.Unmarshal and UnmarshalJSON disagree about accepting %q", step, strings.TrimRight(string(b), " ")), wo, o})
+			break
+		}
+		if o == "ok" {
+			t1, _, _ := marshalText(want)
+			t2, _, _ := marshalText(got)
+			if !bytes.Equal(t1, t2) {
+				fs = append(fs, fail{"json:cached-unmarshal-differs", fmt.Sprintf("step %d of a buffer-reuse history: fieldmask.Unmarshal(%q) returns another document's mask", step, strings.TrimRight(string(b), " ")), string(t1), string(t2)})
+				break
+			}
+		}
+	}
+	return fs
+}
+
 func hasKey(fs []fail, key string) *fail {
 	for i := range fs {
 		if fs[i].key == key {
@@ -271,6 +339,22 @@ func hasKey(fs []fail, key string) *fail {
 // shrink: drop paths, shorten the query, shorten the getpath string, while the same key still fails.
 func shrink(c Case, key string) Case {
 	still := func(x *Case) bool { return hasKey(check(x), key) != nil }
+	for len(c.Hist) > 0 {
+		x := c
+		x.Hist = c.Hist[:len(c.Hist)-1]
+		if !still(&x) {
+			break
+		}
+		c = x
+	}
+	for i := 0; i < len(c.Hist); i++ {
+		x := c
+		x.Hist = append(append([][2]int{}, c.Hist[:i]...), c.Hist[i+1:]...)
+		if still(&x) {
+			c = x
+			i--
+		}
+	}
 	for changed := true; changed; {
 		changed = false
 		for i := 0; i < len(c.Paths); i++ {
@@ -347,8 +431,9 @@ func shrink(c Case, key string) Case {
 // ---------------------------------------------------------------- run
 
 type runner struct {
-	r   *vl.Rng
-	out *vl.Out
+	r    *vl.Rng
+	out  *vl.Out
+	pool []string // recent MarshalJSON texts (for the cached-API histories)
 	// keys already reported (one shrink per key)
 	seen map[string]bool
 }
@@ -481,6 +566,12 @@ func (rn *runner) scenario(w *World, g *pathGen, nq int) {
 		}
 		// JSON
 		text, jo, _ := marshalText(m)
+		if jo == "ok" && json.Valid(text) && len(text) < 400 {
+			rn.pool = append(rn.pool, string(text))
+			if len(rn.pool) > 24 {
+				rn.pool = rn.pool[1:]
+			}
+		}
 		if jo == "ok" {
 			ct, err := canonText(string(text))
 			if err != nil {
@@ -586,6 +677,28 @@ func (rn *runner) scenario(w *World, g *pathGen, nq int) {
 	}
 }
 
+// cacheHistory: 2-3 long-lived receive buffers, 40-80 decodes of documents drawn (with repetition) from the pool of
+// recent texts plus a family of near-identical documents, through the cached fieldmask.Unmarshal.
+func (rn *runner) cacheHistory(w *World) {
+	var docs []string
+	for i := 0; i < 6; i++ {
+		docs = append(docs, fmt.Sprintf(`{"path":"$","type":"Struct","is_black":false,"children":[{"path":%d,"type":"Scalar","is_black":false}]}`, 10+rn.r.Intn(90)))
+	}
+	docs = append(docs, rn.pool...)
+	nb := 2 + rn.r.Intn(2)
+	var hist [][2]int
+	for i, n := 0, 40+rn.r.Intn(40); i < n; i++ {
+		d := rn.r.Intn(len(docs))
+		if rn.r.Chance(50) {
+			d = rn.r.Intn(6)
+		}
+		hist = append(hist, [2]int{rn.r.Intn(nb), d})
+	}
+	c := Case{IDL: w.IDL, Root: []string{"n" + vl.Hex(w.Sch.Structs[0].Name)}, Op: "cache", Docs: hexAll(docs), Hist: hist}
+	rn.out.Count("cache-history")
+	rn.report(c, check(&c))
+}
+
 func run(dir string, seed uint64, tier string) error {
 	rn := &runner{r: vl.NewRng(seed), out: vl.NewOut(dir), seen: map[string]bool{}}
 	nRandomIDL, nScen, nq := 26, 45, 5
@@ -622,6 +735,9 @@ func run(dir string, seed uint64, tier string) error {
 		g := &pathGen{r: rn.r, w: w}
 		for s := 0; s < nScen; s++ {
 			rn.scenario(w, g, nq)
+			if s%15 == 14 {
+				rn.cacheHistory(w)
+			}
 		}
 	}
 	rn.out.Stats["child-process-getpath"] = childSpawns
